@@ -285,8 +285,10 @@ def cmd_standin(prop, n, seed, path_out, tier="quick", only=None):
         nn = n if c.gen is None else 10 ** 9
         jobs.append((key, nn, seed, tier))
     if len(jobs) > 1:
-        with mp.get_context("fork").Pool(min(16, len(jobs))) as pool:
-            res = pool.map(_standin_one, jobs, chunksize=1)
+        # non-daemonic workers: the code under test may start its own process pools
+        from concurrent.futures import ProcessPoolExecutor
+        with ProcessPoolExecutor(max_workers=min(16, len(jobs)), mp_context=mp.get_context("fork")) as pool:
+            res = list(pool.map(_standin_one, jobs))
     else:
         res = [_standin_one(j) for j in jobs]
     for rec, viol in res:
